@@ -306,6 +306,9 @@ def gen_cases(tier):
                 for body in itertools.product("cv", repeat=k):
                     for end in "GNSQ":
                         yield dict(fam="fault", variant=variant, phases=phname, seq="".join(body) + end)
+                    # re-entrancy: a callback that itself runs batt_life() on the same system, followed by each kind of ending
+                    for end in ("Z", "X", "H"):
+                        yield dict(fam="fault", variant=variant, phases=phname, seq="".join(body) + "B" + end + ("Z" if end == "H" else ""))
             for k in range(0, K + 1):
                 for body in itertools.product("cvr", repeat=k):
                     for end in ("X", "Y", "H", "Z"):
